@@ -15,7 +15,7 @@ fakegpu.install()
 
 ID = "C16"
 LEVEL = "exploration"
-N_QUICK, N_THOROUGH = 480, 16000
+N_QUICK, N_THOROUGH = 1000, 16000
 T_QUICK, T_THOROUGH = 80, 1500
 TARGETS = ["cpu_serial", "cpu_openmp", "opencl", "cuda"]
 BIT = {"cpu_serial": 1, "cpu_openmp": 2, "opencl": 4, "cuda": 8}
